@@ -85,14 +85,20 @@ impl Input for str {
     /// slicing by a range.end-range.start chars.
     #[inline]
     fn slice(&self, range: Range<usize>) -> &<Self as Index<Range<usize>>>::Output {
-        &self[range.start
-            ..range.start
-                + self[range.start..]
+        // A start computed from the byte length may fall inside a multi-byte
+        // character. Move it back to the start of that character.
+        let mut start = range.start;
+        while !self.is_char_boundary(start) {
+            start -= 1;
+        }
+        &self[start
+            ..start
+                + self[start..]
                     .char_indices()
                     .take(range.end - range.start + 1)
                     .map(|(idx, _)| idx)
                     .last()
-                    .unwrap_or(range.start)]
+                    .unwrap_or(start)]
     }
 
     fn start_position() -> Position {
